@@ -177,9 +177,9 @@ class Prop(c09.Prop):
                 fh.write(rf.diaginfo_line(off, cat, 'category ' + cat) + '\n')
         p = os.path.join(d, 'cut.bpch')
 
-        def read(path):
+        def read(path, entry='bpch1'):
             with c18.quiet():
-                f = P.pncopen(path, format='bpch1', noscale=True)
+                f = P.pncopen(path, format=entry, noscale=True)
             out = {}
             timed = set()
             for k in f.variables.keys():
@@ -196,20 +196,30 @@ class Prop(c09.Prop):
         with open(p, 'wb') as fh:
             fh.write(raw)
         scope0 = dict(fmt='bpch', mode='r', shape=bc['layers'], nsteps=bc['nt'], instant=bool(bc.get('instant')))
+        full = {}
         try:
-            fnt, fdata = read(p)
+            # the memory-mapped reader itself, and the master class (which falls back to the block-walking reader
+            # whenever the memory-mapped one raises)
+            for entry in ('bpch1', 'bpch'):
+                full[entry] = read(p, entry)
         except Exception as e:
             return result('full-file-unreadable', [], [h64(raw)], 1, None, h64(type(e).__name__))
-        # variables along the time dimension (by name, not by a coincidence of lengths)
-        keys = [k for k in sorted(fdata['__timed__']) if fdata[k] is not None]
         vs, outcomes, ntrans = [], {}, 0
-        for cut in range(g['hi'] - 1, g['lo'] - 1, -1):
+        for cut, entry in [(c, e) for c in range(g['hi'] - 1, g['lo'] - 1, -1) for e in ('bpch1', 'bpch')]:
+            fnt, fdata = full[entry]
+            # variables along the time dimension (by name, not by a coincidence of lengths)
+            keys = [k for k in sorted(fdata['__timed__']) if fdata[k] is not None]
+            if entry == 'bpch':
+                # the fall-back reader defines `time` as the begin of the block, the memory-mapped one as its mid
+                # point (DESIGN 7.4); both carry the block bounds tau0/tau1, which are compared
+                keys = [k for k in keys if k not in ('time', 'time_bounds')]
+            scope0['entry'] = entry
             with open(p, 'wb') as fh:
                 fh.write(raw[:cut])
             ntrans += 1
             signal.setitimer(signal.ITIMER_REAL, 5.0)
             try:
-                nt_, data = read(p)
+                nt_, data = read(p, entry)
                 signal.setitimer(signal.ITIMER_REAL, self.HORIZON)
             except core.Timeout:
                 signal.setitimer(signal.ITIMER_REAL, self.HORIZON)
@@ -232,7 +242,12 @@ class Prop(c09.Prop):
                     if got is None:
                         continue
                     want = fdata[k][:nt_]
-                    if got.shape != want.shape or got.tobytes() != want.tobytes():
+                    if got.shape[1:] == want.shape[1:] and got.shape[0] < nt_ and k not in data['__timed__']:
+                        # a tracer kept on a shorter time dimension of its own: the last step shown is incomplete
+                        problem = ('incomplete-step-exposed', '%s has %d of the %d time blocks shown' % (k, got.shape[0], nt_))
+                        break
+                    # (values, not bytes: the fall-back reader presents the same numbers in native byte order)
+                    if got.shape != want.shape or not np.array_equal(got, want, equal_nan=got.dtype.kind == 'f'):
                         what = 'time-flags-differ' if k in ('tau0', 'tau1', 'time', 'time_bounds') else 'values-differ'
                         problem = (what, '%s: shape %r vs %r; %s vs %s' % (k, got.shape, want.shape, got.ravel()[:4],
                                                                         want.ravel()[:4]))
